@@ -13,6 +13,8 @@
 //	select  select { case <-a: A; case b <- v: B }                   -> switch verifhook.SelectPick(site, R(a), S(b)) { case 0: select { case <-a: A }; case 1: select { case b <- v: B }; default: <original> }
 //	tcpconn       c, ok := X.(*net.TCPConn)                          -> c, ok := verifhook.AsTCPConn(X)   (interface with SetLinger; simulated connections implement it)
 //	entry=F+G     func (..) F(..) {                                  -> func (..) F(..) { verifhook.Yield(site); (a scheduling point at function entry)
+//	wrap=p.F+.M   p.F(args) / X.M(args)                              -> verifWrap_p_F(p.F)(args) / verifWrap_M(X.M, X)(args)   (the package's harness files define the wrappers;
+//	        used to stand in for the sockets, tun devices and signals of a main() so that the real main() can run inside the simulation)
 //	maprange=M+N  for k, v := range M {                              -> for _, k := range verifhook.MapKeys(site, M) { v, ok := M[k]; if !ok { continue }; ...
 //	        (only selects with >= 2 communication clauses whose channel expressions are identifiers, selectors or x.Done(); not labelled; no labels in the bodies)
 //
@@ -68,6 +70,7 @@ type rewriter struct {
 	maps    map[string]bool // map expressions whose range loops are rewritten (rule maprange=expr+expr)
 	entries map[string]bool // functions that get a scheduling point at entry (rule entry=F+G)
 	removed map[string]int  // package name -> selector uses replaced
+	wraps   map[string]bool // "pkg.Func" / ".Method" calls that go through verifWrap_* (rule wrap=a+b)
 }
 
 func importName(f *ast.File, path string) string {
@@ -172,6 +175,30 @@ func isPkgSel(e ast.Expr, pkg string, names ...string) (string, bool) {
 }
 
 func (rw *rewriter) call(c *ast.CallExpr) {
+	if len(rw.wraps) > 0 {
+		if se, ok := c.Fun.(*ast.SelectorExpr); ok {
+			name, method := "", false
+			if id, ok := se.X.(*ast.Ident); ok && id.Obj == nil && rw.wraps[id.Name+"."+se.Sel.Name] {
+				name = id.Name + "_" + se.Sel.Name
+			} else if rw.wraps["."+se.Sel.Name] {
+				name, method = se.Sel.Name, true
+			}
+			if name != "" {
+				e := &edit{lo: rw.off(c.Fun.Pos()), hi: rw.off(c.Fun.End())}
+				xlo, xhi := rw.off(se.X.Pos()), rw.off(se.X.End())
+				e.gen = func() string {
+					fun := rw.render(e.lo, e.hi, e)
+					if method {
+						return "verifWrap_" + name + "(" + fun + ", " + rw.render(xlo, xhi, e) + ")"
+					}
+					return "verifWrap_" + name + "(" + fun + ")"
+				}
+				rw.edits = append(rw.edits, e)
+				rw.counts["wrap"]++
+				return
+			}
+		}
+	}
 	if rw.rules["redisnew"] {
 		// redis.NewClient(opts) -> the package-level variable verifRedisNewClient (declared in the
 		// package's harness export file, initially redis.NewClient): the world can give the client
@@ -361,10 +388,14 @@ func (rw *rewriter) selectStmt(sel *ast.SelectStmt, labelled bool) {
 			b.WriteString(", " + hookName + fn + rw.render(rw.off(c.ch.Pos()), rw.off(c.ch.End()), e) + ")")
 		}
 		b.WriteString(") {\n")
+		// The chosen case is attempted without blocking; should it no longer be ready (SelectPick peeks,
+		// it does not commit: a receiver that was waiting can have been woken by another case of its own
+		// select in the meantime) the original statement runs, exactly as it would have without the seam.
+		orig := rw.render(e.lo, e.hi, e)
 		for i, c := range cls {
-			fmt.Fprintf(&b, "case %d:\nselect {\n%s\n}\n", i, rw.render(rw.off(c.cc.Pos()), rw.off(c.cc.End()), e))
+			fmt.Fprintf(&b, "case %d:\nselect {\n%s\ndefault:\n%s\n}\n", i, rw.render(rw.off(c.cc.Pos()), rw.off(c.cc.End()), e), orig)
 		}
-		b.WriteString("default:\n" + rw.render(e.lo, e.hi, e) + "\n}")
+		b.WriteString("default:\n" + orig + "\n}")
 		return b.String()
 	}
 	rw.edits = append(rw.edits, e)
@@ -568,11 +599,18 @@ func main() {
 		rules := map[string]bool{}
 		maps := map[string]bool{}
 		entries := map[string]bool{}
+		wraps := map[string]bool{}
 		if len(parts) == 2 {
 			for _, r := range strings.Split(parts[1], ",") {
 				if strings.HasPrefix(r, "entry=") {
 					for _, m := range strings.Split(strings.TrimPrefix(r, "entry="), "+") {
 						entries[m] = true
+					}
+					continue
+				}
+				if strings.HasPrefix(r, "wrap=") {
+					for _, m := range strings.Split(strings.TrimPrefix(r, "wrap="), "+") {
+						wraps[m] = true
 					}
 					continue
 				}
@@ -608,7 +646,7 @@ func main() {
 				fmt.Fprintf(os.Stderr, "seamgen: parse %s: %v\n", srcPath, err)
 				os.Exit(2)
 			}
-			rw := &rewriter{fset: fset, file: f, src: src, base: name, rules: rules, maps: maps, entries: entries, counts: map[string]int{}, removed: map[string]int{},
+			rw := &rewriter{fset: fset, file: f, src: src, base: name, rules: rules, maps: maps, entries: entries, wraps: wraps, counts: map[string]int{}, removed: map[string]int{},
 				netName: importName(f, "net"), httpNm: importName(f, "net/http"), randNm: importName(f, "math/rand")}
 			rw.collect()
 			if len(rw.edits) == 0 {
